@@ -9,12 +9,12 @@ LEVEL = "exploration"
 RULE = ("one content class of n paths (n<=3 quick, <=4 thorough; 25-byte or 20000-byte files alternately, so that both the pass-through and the re-hashing code paths count replicas) plus a decoy of the same size: every set partition of "
         "the paths into inodes (hard links), every placement into roots r1/r1x (one name a string prefix of the other) and a sub-directory, optional "
         "replacement of a path by a relative/absolute symlink to another member; x {none,-H,--isolate,-S,-S -H,-L,"
-        "-L -S,--isolate -H} x {--rf-over 0..3, --rf-under 1..3, --unique} x root order; spelling sub-space: the same "
+        "-L -S,--isolate -H} x {--rf-over 0..3, --rf-under 1..3, --unique} x root order; overlapping input paths (r1/sub before / after r1, r1/sub/deep with r1/sub/..) x {none, -H}; spelling sub-space: the same "
         "scenarios with roots spelled absolute, relative, ./r, r/, r/../r and through a directory symlink. Oracle: "
         "replica count from the statement (distinct inodes, paths under -H, roots under --isolate), strict filter, "
         "all paths of a reported class listed, same verdict for every spelling. Non-trivial = class with >= 2 paths "
         "or a link; distinct by (structure, flags, filter, spelling).")
-ASSUMPTIONS = ["under --isolate, links (hard or symbolic) that cross roots and overlapping roots are outside the alphabet: "
+ASSUMPTIONS = ["under --isolate, links (hard or symbolic) that cross roots and overlapping roots are outside the alphabet (overlapping roots without --isolate are enumerated): "
                "the documentation does not say which rule wins",
                "--stdin with --isolate and hidden roots are outside the alphabet"]
 
@@ -141,6 +141,17 @@ def cases(tier, seed):
                                     "filter": " ".join(flt) or "default", "spelling": "all", "order": ["r1", "r1x"]}
                             out.append({"tree": tree, "roots": ["r1", "r1x"], "args": ["--min", "0"] + flags + flt,
                                         "meta": meta, "spellings": SPELLINGS})
+                    # overlapping input paths (no --isolate): a path reached through two roots is one path, whatever
+                    # the order of the roots - also under --match-links, where every PATH counts as a replica
+                    if sym is None and 2 in placement:
+                        for order in (["r1/sub", "r1", "r1x"], ["r1", "r1/sub", "r1x"], ["r1/sub/deep", "r1x", "r1/sub/.."],
+                                      ["./r1/sub/", "r1x", "r1/sub/.."]):
+                            for flags in ([], ["-H"]):
+                                for flt in ([], ["--rf-over", "0"], ["--rf-over", "2"], ["--unique"]):
+                                    meta = {"n": n, "rgs": rgs, "placement": list(placement), "sym": sym, "flags": flags,
+                                            "filter": " ".join(flt) or "default", "spelling": "overlap", "order": order}
+                                    out.append({"tree": tree, "roots": order, "args": ["--min", "0"] + flags + flt,
+                                                "meta": meta, "spellings": ["rel"]})
     return out
 
 
@@ -170,6 +181,11 @@ def evaluate(case):
                 continue
             rep = C.parse_json_report(out)
             got = set(frozenset(C.u(p) for p in g["paths"]) for g in rep.groups)
+            for g in rep.groups:
+                if len(set(g["paths"])) != len(g["paths"]):
+                    viol.append({"kind": "path_listed_twice", "root_spelling": sp, "flags": " ".join(meta["flags"]),
+                                 "filter": meta["filter"], "detail": "group %s; args %s roots %s" % (
+                                     [C.u(p) for p in g["paths"]], case["args"], roots)})
             results[sp] = got
             if got != exp_rep:
                 # classify
